@@ -16,7 +16,7 @@ type ModSet struct {
 	FreeVarsWritten map[*ssa.FreeVar]bool
 	Why             string
 	knownParams     map[*ssa.Function]bool // callees whose function-typed parameters are known closures at the call site
-	Preserves       []string // when Top comes only from contracts with a preserves clause
+	Preserves       []string               // when Top comes only from contracts with a preserves clause
 	starOnly        bool
 	loopScan        bool // computing a loop's mod-set: objects allocated before the loop are not fresh
 }
